@@ -464,7 +464,7 @@ pub fn run(rep: &mut Report, tier: &str, seed: u64, shard: (u32, u32), replay: O
     rep.extra.insert("enumerated_sync_sequences".into(), json!(enumerated));
     rep.extra.insert("enumerated_max_len".into(), json!(max_len));
     // seeded interleavings with delay exchanges and noise
-    let n: u64 = if tier == "thorough" { 400_000 } else { 20_000 };
+    let n: u64 = if tier == "thorough" { 400_000 } else { 60_000 };
     let budget = Budget::new(n, if tier == "thorough" { 600.0 } else { 20.0 });
     let full = full_alphabet();
     let mut i = 0;
